@@ -8,6 +8,18 @@
 //! lattice 2), which preserves the class, and its answers are compared with the exact class and with
 //! the f64 evaluation of the exact algebraic intersection points.
 //!
+//! Two further families leave the "comfortable" part of the domain, still with exactly decided classes:
+//!
+//! * NEAR-boundary: every exactly tangent circle–line / circle–circle configuration and every exact
+//!   border point found by the enumeration (in every lattice image) is fed again with one radius
+//!   changed by ±1e-8, ±3e-7, ±1e-5.  The sign of the change decides the class (secant / disjoint,
+//!   crossing / nested / separated, inside / outside); the distance from the boundary is the size of the
+//!   change, i.e. 10 … 10^4 times the library's 1e-9 tolerance, so the property applies.
+//! * SKEW lines: the axis-parallel lines spanning a scaled lattice box with one endpoint nudged sideways
+//!   by 2^-19, 2^-13, 2^-7 (normalised minor coefficient 2.4e-9 … 1e-5 with defining points 800 apart),
+//!   crossed in both argument orders with every lattice line and with each other.  All coordinates are
+//!   integers in units of 2^-19, so parallel / crossing / on-line are again decided in i128.
+//!
 //! Nothing here is sampled: all centres x radii x ordered point pairs of the stated lattice are visited.
 
 use rayon::prelude::*;
@@ -25,7 +37,18 @@ const COORD_LIMIT: f64 = 1e3;
 /// every non-zero distance to a boundary between kinds must exceed this on the lattice (library EPS = 1e-9)
 const GAP_FLOOR: f64 = 1e-6;
 
+/// near-boundary family: signed change of one radius (index 1..=6 is what replay files record; 0 = none)
+const PERTS: [f64; 7] = [0.0, 1e-8, -1e-8, 3e-7, -3e-7, 1e-5, -1e-5];
+/// near-boundary and skew families: smallest admissible distance from a boundary (library EPS = 1e-9)
+const NEAR_FLOOR: f64 = 2e-9;
+/// skew family: coordinates are integers in units of 2^-19
+const BIN: i64 = 1 << 19;
+
 type IP = (i64, i64);
+
+fn pert_tag(i: usize) -> String {
+    format!("{:+e}", PERTS[i])
+}
 
 // ------------------------------------------------------------------------------------------------
 // similarity transform: rotate by (p/h, q/h), translate by (tx/4, ty/4), scale by s
@@ -43,9 +66,22 @@ struct Tf {
 
 impl Tf {
     const ID: Tf = Tf { p: 1, q: 0, h: 1, tx: 0, ty: 0, s: 1 };
+    /// the skew family's plane: integer coordinates in units of 2^-19 (the image is exact in f64)
+    const BINARY: Tf = Tf { p: 1, q: 0, h: BIN, tx: 0, ty: 0, s: 1 };
 
     fn is_id(&self) -> bool {
         *self == Tf::ID
+    }
+    fn is_binary(&self) -> bool {
+        *self == Tf::BINARY
+    }
+    /// a pre-image point for signatures and messages (the skew plane shows the fed binary fraction)
+    fn show(&self, p: IP) -> String {
+        if self.is_binary() {
+            format!("({:?},{:?})", p.0 as f64 / BIN as f64, p.1 as f64 / BIN as f64)
+        } else {
+            ip(p)
+        }
     }
     /// image of an integer point (numerators exact, one division, one addition, one multiplication)
     fn pt(&self, (x, y): IP) -> Point {
@@ -66,6 +102,8 @@ impl Tf {
     fn tag(&self) -> String {
         if self.is_id() {
             "id".to_string()
+        } else if self.is_binary() {
+            "2^-19".to_string()
         } else {
             format!("rot{}/{}+({},{})/4*{}", self.p, self.h, self.tx, self.ty, self.s)
         }
@@ -119,6 +157,21 @@ enum C {
     ObsCcIntersect,
     ObsCcSame,
     ObsLlSome,
+    NearClIntersect,
+    NearClNone,
+    NearCcIntersect,
+    NearCcNoneOutside,
+    NearCcNoneInside,
+    NearPosInside,
+    NearPosOutside,
+    NearPosInBand,
+    NearLargeRadiusInRelBand,
+    SkewLlParallel,
+    SkewLlPoint,
+    SkewLlPointChecked,
+    SkewLlSteepFirst,
+    SkewContainsOn,
+    SkewContainsOff,
     N,
 }
 
@@ -154,6 +207,21 @@ const CNAMES: [&str; C::N as usize] = [
     "observed_cc_intersect",
     "observed_cc_same",
     "observed_ll_some",
+    "near_cl_exact_intersect",
+    "near_cl_exact_none",
+    "near_cc_exact_intersect",
+    "near_cc_exact_none_outside",
+    "near_cc_exact_none_inside",
+    "near_position_exact_inside",
+    "near_position_exact_outside",
+    "near_position_within_relative_tolerance_skipped",
+    "near_cl_cc_cases_with_change_below_radius_times_1e-9",
+    "skew_ll_exact_parallel",
+    "skew_ll_exact_point",
+    "skew_ll_point_within_1e3_checked",
+    "skew_ll_first_line_minor_coefficient_below_1e-6",
+    "skew_contains_on",
+    "skew_contains_off",
 ];
 
 #[derive(Clone)]
@@ -164,6 +232,8 @@ struct Acc {
     gap_pos_rel: f64,
     gap_contains: f64,
     gap_parallel: f64,
+    gap_skew_parallel: f64,
+    gap_skew_contains: f64,
     max_dev: f64,
     fails: BTreeMap<&'static str, (Key, Violation)>,
     fail_counts: BTreeMap<&'static str, u64>,
@@ -179,6 +249,8 @@ impl Acc {
             gap_pos_rel: f64::INFINITY,
             gap_contains: f64::INFINITY,
             gap_parallel: f64::INFINITY,
+            gap_skew_parallel: f64::INFINITY,
+            gap_skew_contains: f64::INFINITY,
             max_dev: 0.0,
             fails: BTreeMap::new(),
             fail_counts: BTreeMap::new(),
@@ -218,6 +290,8 @@ impl Acc {
         self.gap_pos_rel = self.gap_pos_rel.min(o.gap_pos_rel);
         self.gap_contains = self.gap_contains.min(o.gap_contains);
         self.gap_parallel = self.gap_parallel.min(o.gap_parallel);
+        self.gap_skew_parallel = self.gap_skew_parallel.min(o.gap_skew_parallel);
+        self.gap_skew_contains = self.gap_skew_contains.min(o.gap_skew_contains);
         self.max_dev = self.max_dev.max(o.max_dev);
         for (f, n) in o.fail_counts {
             *self.fail_counts.entry(f).or_insert(0) += n;
@@ -305,15 +379,18 @@ struct ClCase {
     r: i64,
     p1: IP,
     p2: IP,
+    /// index into PERTS: change of the fed radius (near-boundary family), 0 = none
+    pert: usize,
 }
 
 impl ClCase {
     fn sig(&self) -> String {
-        format!("tf={};c={};r={};l={}>{}", self.tf.tag(), ip(self.c), self.r, ip(self.p1), ip(self.p2))
+        let dr = if self.pert == 0 { String::new() } else { format!(";dr={}", pert_tag(self.pert)) };
+        format!("tf={};c={};r={};l={}>{}{dr}", self.tf.tag(), ip(self.c), self.r, ip(self.p1), ip(self.p2))
     }
     fn replay(&self, fam: &str) -> Value {
         json!({"case": "cl", "family": fam, "tf": self.tf.json(), "c": [self.c.0, self.c.1], "r": self.r,
-               "p1": [self.p1.0, self.p1.1], "p2": [self.p2.0, self.p2.1]})
+               "p1": [self.p1.0, self.p1.1], "p2": [self.p2.0, self.p2.1], "pert": self.pert})
     }
 }
 
@@ -326,8 +403,8 @@ fn cl_obs_string(r: &Result<CircleLineIntersection, String>) -> String {
     }
 }
 
-/// One circle–line configuration against the real `intersect_cl`.
-fn check_cl(acc: &mut Acc, key: Key, k: &ClCase, fc: &Point, fp1: &Point, fp2: &Point, fl: &Line) {
+/// One circle–line configuration against the real `intersect_cl`; returns the exact class.
+fn check_cl(acc: &mut Acc, key: Key, k: &ClCase, fc: &Point, fp1: &Point, fp2: &Point, fl: &Line) -> ClKind {
     let (dx, dy) = ((k.p2.0 - k.p1.0) as i128, (k.p2.1 - k.p1.1) as i128);
     let (ex, ey) = ((k.c.0 - k.p1.0) as i128, (k.c.1 - k.p1.1) as i128);
     let l = dx * dx + dy * dy;
@@ -381,7 +458,7 @@ fn check_cl(acc: &mut Acc, key: Key, k: &ClCase, fc: &Point, fp1: &Point, fp2: &
             acc.fail("cl_panic", key, || {
                 Violation::new(format!("cl_panic:{}", k.sig()), format!("intersect_cl panicked on circle {} r={} line {}>{} [{}]: {s}", ip(k.c), k.r, ip(k.p1), ip(k.p2), k.tf.tag()), k.replay("cl_panic"))
             });
-            return;
+            return exact;
         }
         Ok(CircleLineIntersection::None) => ClKind::None,
         Ok(CircleLineIntersection::Touch(_)) => ClKind::Touch,
@@ -470,6 +547,71 @@ fn check_cl(acc: &mut Acc, key: Key, k: &ClCase, fc: &Point, fp1: &Point, fp2: &
                 }
             }
         }
+    }    exact
+}
+
+/// The NEAR-boundary companion of an exactly tangent circle–line configuration: the same centre and line,
+/// the fed radius changed by PERTS[k.pert].  A larger radius makes the line a secant, a smaller one makes
+/// it miss the circle; the distance from tangency is |change|, outside the library's tolerance.
+fn check_cl_near(acc: &mut Acc, key: Key, k: &ClCase, fc: &Point, fp1: &Point, fp2: &Point, fl: &Line) {
+    let r0 = k.tf.rad(k.r);
+    let rp = r0 + PERTS[k.pert];
+    let dr = rp - r0; // exact: the two are within a factor 2 of each other
+    let exact = if dr > 0.0 { ClKind::Intersect } else { ClKind::None };
+    if dr > 0.0 {
+        acc.inc(C::NearClIntersect);
+        acc.inc(C::Nontrivial);
+    } else {
+        acc.inc(C::NearClNone);
+    }
+    if dr.abs() < r0 * 1e-9 {
+        acc.inc(C::NearLargeRadiusInRelBand);
+    }
+    let circle = Circle::new(*fc, rp);
+    let res = catch(|| util::intersect_cl(&circle, fl));
+    acc.inc(C::Evals);
+    let what = || {
+        format!(
+            "the line through {} and {} is exactly tangent to the circle centre {} r={} (transform {}; fed centre {}, line points {} {}); with the fed radius changed by {} to {:?} it {}, {:e} away from tangency (library tolerance 1e-9)",
+            ip(k.p1), ip(k.p2), ip(k.c), k.r, k.tf.tag(), ps(fc), ps(fp1), ps(fp2), pert_tag(k.pert), rp,
+            if dr > 0.0 { "is a secant (two points)" } else { "misses the circle (no point)" }, dr.abs()
+        )
+    };
+    let v = match &res {
+        Err(_) => {
+            let s = cl_obs_string(&res);
+            acc.fail("cl_near_panic", key, || Violation::new(format!("cl_near_panic:{}", k.sig()), format!("intersect_cl panicked near tangency: {}: {s}", what()), k.replay("cl_near_panic")));
+            return;
+        }
+        Ok(v) => v,
+    };
+    let (obs_kind, pts) = match v {
+        CircleLineIntersection::None => (ClKind::None, vec![]),
+        CircleLineIntersection::Touch(p) => (ClKind::Touch, vec![*p]),
+        CircleLineIntersection::Intersect(p, q) => (ClKind::Intersect, vec![*p, *q]),
+    };
+    if obs_kind != exact {
+        let s = cl_obs_string(&res);
+        acc.fail("cl_near_kind", key, || Violation::new(format!("cl_near_kind:{}", k.sig()), format!("intersect_cl kind near tangency: {}: exact class {:?}, library returned {s}", what(), exact), k.replay("cl_near_kind")));
+    }
+    // the property asks for points on both primitives; where along the line they sit is ill-conditioned here and not compared
+    let offs: Vec<f64> = pts.iter().flat_map(|p| [off_circle(p, fc, rp), off_line(p, fp1, fp2)]).collect();
+    let apart = if pts.len() == 2 { d2(pts[0].x, pts[0].y, pts[1].x, pts[1].y) } else { f64::INFINITY };
+    if !(offs.iter().all(|w| within(*w)) && apart > TOL) {
+        let s = cl_obs_string(&res);
+        acc.fail("cl_near_points", key, || {
+            Violation::new(
+                format!("cl_near_points:{}", k.sig()),
+                format!("intersect_cl points near tangency: {}: library returned {s}; per point (off circle, off line) = {:?} (tolerance 1e-7), mutual distance {:?} (exact half chord {:?})", what(), offs, apart, (dr.max(0.0) * (2.0 * r0 + dr)).sqrt()),
+                k.replay("cl_near_points"),
+            )
+        });
+    }
+    if obs_kind == ClKind::Intersect && k.pert == 1 && (k.p1.0 != k.p2.0 && k.p1.1 != k.p2.1) {
+        acc.note("cl_near_secant", key, || {
+            json!({"call": "intersect_cl", "transform": k.tf.tag(), "centre": [k.c.0, k.c.1], "tangent_r": k.r, "radius_change": PERTS[k.pert], "fed_r": rp, "line_through": [[k.p1.0, k.p1.1], [k.p2.0, k.p2.1]],
+                   "exact": "Intersect", "exact_half_chord": (dr * (2.0 * r0 + dr)).sqrt(), "observed": cl_obs_string(&res), "off_circle_off_line": offs})
+        });
     }
 }
 
@@ -492,14 +634,17 @@ struct CcCase {
     ra: i64,
     b: IP,
     rb: i64,
+    /// index into PERTS: change of the fed radius of circle a (near-boundary family), 0 = none
+    pert: usize,
 }
 
 impl CcCase {
     fn sig(&self) -> String {
-        format!("tf={};a={};ra={};b={};rb={}", self.tf.tag(), ip(self.a), self.ra, ip(self.b), self.rb)
+        let dr = if self.pert == 0 { String::new() } else { format!(";dra={}", pert_tag(self.pert)) };
+        format!("tf={};a={};ra={};b={};rb={}{dr}", self.tf.tag(), ip(self.a), self.ra, ip(self.b), self.rb)
     }
     fn replay(&self, fam: &str) -> Value {
-        json!({"case": "cc", "family": fam, "tf": self.tf.json(), "a": [self.a.0, self.a.1], "ra": self.ra, "b": [self.b.0, self.b.1], "rb": self.rb})
+        json!({"case": "cc", "family": fam, "tf": self.tf.json(), "a": [self.a.0, self.a.1], "ra": self.ra, "b": [self.b.0, self.b.1], "rb": self.rb, "pert": self.pert})
     }
     fn text(&self) -> String {
         format!("circles centre {} r={} and centre {} r={} (transform {})", ip(self.a), self.ra, ip(self.b), self.rb, self.tf.tag())
@@ -534,8 +679,8 @@ fn cc_obs_string(r: &Result<CircleIntersection, String>) -> String {
     }
 }
 
-/// One ordered pair of circles against the real `intersect_cc`, in both argument orders.
-fn check_cc(acc: &mut Acc, key: Key, k: &CcCase, fa: &Point, fb: &Point) {
+/// One ordered pair of circles against the real `intersect_cc`, in both argument orders; returns the exact class.
+fn check_cc(acc: &mut Acc, key: Key, k: &CcCase, fa: &Point, fb: &Point) -> CcKind {
     let (dx, dy) = ((k.b.0 - k.a.0) as i128, (k.b.1 - k.a.1) as i128);
     let dd = dx * dx + dy * dy;
     let (ra, rb) = (k.ra as i128, k.rb as i128);
@@ -699,6 +844,74 @@ fn check_cc(acc: &mut Acc, key: Key, k: &CcCase, fa: &Point, fb: &Point) {
                        "observed_ab": cc_obs_string(&res_ab), "observed_ba": cc_obs_string(&res_ba)})
             });
         }
+    }    exact
+}
+
+/// The NEAR-boundary companion of an exactly tangent pair of circles: same centres, the fed radius of
+/// circle a changed by PERTS[k.pert].  Outside tangency (d = ra + rb): larger ⇒ the circles cross,
+/// smaller ⇒ separated.  Inside tangency (d = |ra - rb|): enlarging the larger / shrinking the smaller
+/// circle ⇒ nested without contact, the opposite ⇒ they cross.  Both argument orders are called.
+fn check_cc_near(acc: &mut Acc, key: Key, k: &CcCase, fa: &Point, fb: &Point) {
+    let (dx, dy) = ((k.b.0 - k.a.0) as i128, (k.b.1 - k.a.1) as i128);
+    let dd = dx * dx + dy * dy;
+    let (ra, rb) = (k.ra as i128, k.rb as i128);
+    let outside = dd == (ra + rb) * (ra + rb);
+    assert!(dd != 0 && (outside || dd == (ra - rb) * (ra - rb)), "check_cc_near needs an exactly tangent pair");
+    let r0 = k.tf.rad(k.ra);
+    let rp = r0 + PERTS[k.pert];
+    let dr = rp - r0; // exact
+    let crossing = if outside { dr > 0.0 } else { (dr > 0.0) == (ra < rb) };
+    let exact = if crossing { CcKind::Intersect } else { CcKind::None };
+    if crossing {
+        acc.inc(C::NearCcIntersect);
+        acc.inc(C::Nontrivial);
+    } else {
+        acc.inc(if outside { C::NearCcNoneOutside } else { C::NearCcNoneInside });
+    }
+    if dr.abs() < r0.max(k.tf.rad(k.rb)) * 1e-9 {
+        acc.inc(C::NearLargeRadiusInRelBand);
+    }
+    let ca = Circle::new(*fa, rp);
+    let cb = Circle::new(*fb, k.tf.rad(k.rb));
+    let res_ab = catch(|| util::intersect_cc(&ca, &cb));
+    let res_ba = catch(|| util::intersect_cc(&cb, &ca));
+    acc.inc(C::Evals);
+    acc.inc(C::Evals);
+    let what = || {
+        format!(
+            "{} touch exactly from the {} (d^2={dd}); with the fed radius of the first changed by {} to {:?} (fed centres {} {}, other radius {:?}) they {}, {:e} away from tangency (library tolerance 1e-9)",
+            k.text(), if outside { "outside" } else { "inside" }, pert_tag(k.pert), rp, ps(fa), ps(fb), cb.r,
+            if crossing { "cross in two points" } else if outside { "are separated" } else { "are nested without contact" }, dr.abs()
+        )
+    };
+    for (which, res) in [("(a,b)", &res_ab), ("(b,a)", &res_ba)] {
+        let v = match res {
+            Err(_) => {
+                let s = cc_obs_string(res);
+                acc.fail("cc_near_panic", key, || Violation::new(format!("cc_near_panic:{}", k.sig()), format!("intersect_cc{which} panicked near tangency: {}: {s}", what()), k.replay("cc_near_panic")));
+                continue;
+            }
+            Ok(v) => v,
+        };
+        if cc_kind_of(v) != exact {
+            let s = cc_obs_string(res);
+            acc.fail("cc_near_kind", key, || Violation::new(format!("cc_near_kind:{}", k.sig()), format!("intersect_cc{which} kind near tangency: {}: exact class {:?}, library returned {s}", what(), exact), k.replay("cc_near_kind")));
+        }
+        let pts = cc_points(v);
+        let offs: Vec<f64> = pts.iter().flat_map(|p| [off_circle(p, fa, ca.r), off_circle(p, fb, cb.r)]).collect();
+        let apart = if pts.len() == 2 { d2(pts[0].x, pts[0].y, pts[1].x, pts[1].y) } else { f64::INFINITY };
+        if !(offs.iter().all(|w| within(*w)) && apart > TOL) {
+            let s = cc_obs_string(res);
+            acc.fail("cc_near_points", key, || {
+                Violation::new(format!("cc_near_points:{}", k.sig()), format!("intersect_cc{which} points near tangency: {}: library returned {s}; per point (off circle a, off circle b) = {:?} (tolerance 1e-7), mutual distance {:?}", what(), offs, apart), k.replay("cc_near_points"))
+            });
+        }
+    }
+    if crossing && k.pert <= 2 && dx != 0 && dy != 0 {
+        acc.note("cc_near_crossing", key, || {
+            json!({"call": "intersect_cc", "transform": k.tf.tag(), "a": [k.a.0, k.a.1], "touching_from": if outside { "outside" } else { "inside" }, "tangent_ra": k.ra, "radius_change": PERTS[k.pert], "fed_ra": rp, "b": [k.b.0, k.b.1], "rb": k.rb,
+                   "exact": "Intersect", "observed_ab": cc_obs_string(&res_ab), "observed_ba": cc_obs_string(&res_ba)})
+        });
     }
 }
 
@@ -716,31 +929,54 @@ struct LlCase {
 
 impl LlCase {
     fn sig(&self) -> String {
-        format!("tf={};l={}>{};m={}>{}", self.tf.tag(), ip(self.p1), ip(self.p2), ip(self.q1), ip(self.q2))
+        let t = &self.tf;
+        format!("tf={};l={}>{};m={}>{}", t.tag(), t.show(self.p1), t.show(self.p2), t.show(self.q1), t.show(self.q2))
     }
     fn replay(&self, fam: &str) -> Value {
         json!({"case": "ll", "family": fam, "tf": self.tf.json(), "p1": [self.p1.0, self.p1.1], "p2": [self.p2.0, self.p2.1], "q1": [self.q1.0, self.q1.1], "q2": [self.q2.0, self.q2.1]})
     }
     fn text(&self) -> String {
-        format!("line through {} and {} with line through {} and {} (transform {})", ip(self.p1), ip(self.p2), ip(self.q1), ip(self.q2), self.tf.tag())
+        let t = &self.tf;
+        format!("line through {} and {} with line through {} and {} (transform {})", t.show(self.p1), t.show(self.p2), t.show(self.q1), t.show(self.q2), t.tag())
     }
 }
 
+/// The line–line checks report under their own family names in the skew plane, where in addition only
+/// what the property states is demanded of a returned point (on both lines within 1e-7): two lines
+/// meeting at an angle of 1e-9..1e-5 do not determine the point's position ALONG them to 1e-7.
+struct LlFam {
+    parallel: &'static str,
+    panic: &'static str,
+    kind: &'static str,
+    point: &'static str,
+}
+const LL_LATTICE: LlFam = LlFam { parallel: "parallel", panic: "ll_panic", kind: "ll_kind", point: "ll_point" };
+const LL_SKEW: LlFam = LlFam { parallel: "skew_parallel", panic: "skew_ll_panic", kind: "skew_ll_kind", point: "skew_ll_point" };
+
 #[allow(clippy::too_many_arguments)]
 fn check_ll(acc: &mut Acc, key: Key, k: &LlCase, fp1: &Point, fp2: &Point, fq1: &Point, fq2: &Point, lu: &Line, lv: &Line) {
+    let skew = k.tf.is_binary();
+    let fam = if skew { &LL_SKEW } else { &LL_LATTICE };
     let (d1x, d1y) = ((k.p2.0 - k.p1.0) as i128, (k.p2.1 - k.p1.1) as i128);
     let (d2x, d2y) = ((k.q2.0 - k.q1.0) as i128, (k.q2.1 - k.q1.1) as i128);
     let den = d1x * d2y - d1y * d2x;
     let par_exact = den == 0;
-    if k.tf.is_id() && !par_exact {
+    if (k.tf.is_id() || skew) && !par_exact {
         let g = den.abs() as f64 / (((d1x * d1x + d1y * d1y) as f64).sqrt() * ((d2x * d2x + d2y * d2y) as f64).sqrt());
-        acc.gap_parallel = acc.gap_parallel.min(g);
+        if skew {
+            acc.gap_skew_parallel = acc.gap_skew_parallel.min(g);
+        } else {
+            acc.gap_parallel = acc.gap_parallel.min(g);
+        }
     }
     if par_exact {
         acc.inc(C::LlParallel);
     } else {
         acc.inc(C::LlPoint);
         acc.inc(C::Nontrivial);
+    }
+    if skew {
+        acc.inc(if par_exact { C::SkewLlParallel } else { C::SkewLlPoint });
     }
     let par_obs = catch(|| util::parallel(lu, lv));
     let res = catch(|| util::intersect_ll(lu, lv));
@@ -750,12 +986,12 @@ fn check_ll(acc: &mut Acc, key: Key, k: &LlCase, fp1: &Point, fp2: &Point, fq1: 
         Ok(b) if *b == par_exact => {}
         other => {
             let s = format!("{:?}", other);
-            acc.fail("parallel", key, || Violation::new(format!("parallel:{}", k.sig()), format!("parallel: {}: exact cross product of directions = {den}, so parallel = {par_exact}; library returned {s}", k.text()), k.replay("parallel")));
+            acc.fail(fam.parallel, key, || Violation::new(format!("{}:{}", fam.parallel, k.sig()), format!("parallel: {}: exact cross product of directions = {den}, so parallel = {par_exact}; library returned {s}", k.text()), k.replay(fam.parallel)));
         }
     }
     let res = match res {
         Err(e) => {
-            acc.fail("ll_panic", key, || Violation::new(format!("ll_panic:{}", k.sig()), format!("intersect_ll panicked on {}: {e}", k.text()), k.replay("ll_panic")));
+            acc.fail(fam.panic, key, || Violation::new(format!("{}:{}", fam.panic, k.sig()), format!("intersect_ll panicked on {}: {e}", k.text()), k.replay(fam.panic)));
             return;
         }
         Ok(r) => r,
@@ -765,8 +1001,8 @@ fn check_ll(acc: &mut Acc, key: Key, k: &LlCase, fp1: &Point, fp2: &Point, fq1: 
     }
     if res.is_some() == par_exact {
         let s = format!("{:?}", res);
-        acc.fail("ll_kind", key, || {
-            Violation::new(format!("ll_kind:{}", k.sig()), format!("intersect_ll kind: {}: exact cross product of directions = {den} ({}), library returned {s}", k.text(), if par_exact { "parallel: no unique point" } else { "unique point" }), k.replay("ll_kind"))
+        acc.fail(fam.kind, key, || {
+            Violation::new(format!("{}:{}", fam.kind, k.sig()), format!("intersect_ll kind: {}: exact cross product of directions = {den} ({}), library returned {s}", k.text(), if par_exact { "parallel: no unique point" } else { "unique point" }), k.replay(fam.kind))
         });
     }
     if let Some(p) = res {
@@ -791,15 +1027,29 @@ fn check_ll(acc: &mut Acc, key: Key, k: &LlCase, fp1: &Point, fp2: &Point, fq1: 
         }
         let (o1, o2) = (off_line(&p, fp1, fp2), off_line(&p, fq1, fq2));
         let dev = e.map(|e| d2(p.x, p.y, e.0, e.1)).unwrap_or(0.0);
-        if within(dev) {
+        // the normalised minor coefficient of the FIRST line, from its defining points
+        let minor = (d1x.abs().min(d1y.abs()) as f64) / ((d1x * d1x + d1y * d1y) as f64).sqrt();
+        let steep_first = minor != 0.0 && minor < 1e-6;
+        if skew {
+            acc.inc(C::SkewLlPointChecked);
+            if steep_first {
+                acc.inc(C::SkewLlSteepFirst);
+            }
+        } else if within(dev) {
             acc.max_dev = acc.max_dev.max(dev);
         }
-        if !(within(o1) && within(o2) && within(dev)) {
-            acc.fail("ll_point", key, || {
-                Violation::new(format!("ll_point:{}", k.sig()), format!("intersect_ll point: {}: exact point {:?}, library returned {}: off first line by {:?}, off second line by {:?}, from exact point {:?} (tolerance 1e-7)", k.text(), e, ps(&p), o1, o2, dev), k.replay("ll_point"))
+        if !(within(o1) && within(o2) && (skew || within(dev))) {
+            acc.fail(fam.point, key, || {
+                Violation::new(format!("{}:{}", fam.point, k.sig()), format!("intersect_ll point: {}: exact point {:?}, library returned {}: off first line by {:?}, off second line by {:?}, from exact point {:?} (tolerance 1e-7)", k.text(), e, ps(&p), o1, o2, dev), k.replay(fam.point))
             });
         }
-        if d1x != 0 && d1y != 0 && d2x != 0 && d2y != 0 {
+        if skew {
+            if steep_first && d2x != 0 && d2y != 0 && within(o1) && within(o2) {
+                acc.note("skew_ll_point_steep_line_first", key, || {
+                    json!({"call": "intersect_ll", "plane": "binary fractions (units of 2^-19)", "l": [pj(fp1), pj(fp2)], "m": [pj(fq1), pj(fq2)], "first_line_minor_coefficient": minor, "exact_point": e.map(|e| vec![e.0, e.1]), "observed": ps(&p), "off_l": o1, "off_m": o2})
+                });
+            }
+        } else if d1x != 0 && d1y != 0 && d2x != 0 && d2y != 0 {
             acc.note(if k.tf.is_id() { "ll_point_lattice1" } else { "ll_point_lattice2" }, key, || {
                 json!({"call": "intersect_ll", "transform": k.tf.tag(), "l": [[k.p1.0, k.p1.1], [k.p2.0, k.p2.1]], "m": [[k.q1.0, k.q1.1], [k.q2.0, k.q2.1]], "exact_point": e.map(|e| vec![e.0, e.1]), "observed": ps(&p), "off_l": o1, "off_m": o2})
             });
@@ -816,18 +1066,51 @@ struct PosCase {
     c: IP,
     r: i64,
     p: IP,
+    /// index into PERTS: change of the fed radius (near-boundary family), 0 = none
+    pert: usize,
 }
 
 impl PosCase {
     fn sig(&self) -> String {
-        format!("tf={};c={};r={};p={}", self.tf.tag(), ip(self.c), self.r, ip(self.p))
+        let dr = if self.pert == 0 { String::new() } else { format!(";dr={}", pert_tag(self.pert)) };
+        format!("tf={};c={};r={};p={}{dr}", self.tf.tag(), ip(self.c), self.r, ip(self.p))
     }
-    fn replay(&self) -> Value {
-        json!({"case": "pos", "family": "position", "tf": self.tf.json(), "c": [self.c.0, self.c.1], "r": self.r, "p": [self.p.0, self.p.1]})
+    fn replay(&self, fam: &str) -> Value {
+        json!({"case": "pos", "family": fam, "tf": self.tf.json(), "c": [self.c.0, self.c.1], "r": self.r, "p": [self.p.0, self.p.1], "pert": self.pert})
     }
 }
 
-fn check_pos(acc: &mut Acc, key: Key, k: &PosCase, fc: &Point, fp: &Point) {
+/// The NEAR-boundary companion of an exact border point: the fed radius changed by PERTS[k.pert] puts the
+/// point outside (smaller radius) or inside (larger).  `position` uses a tolerance RELATIVE to the radius,
+/// so changes of at most 1e-9 * r (with 1 % margin) are within the library's tolerance: skipped and counted.
+fn check_pos_near(acc: &mut Acc, key: Key, k: &PosCase, fc: &Point, fp: &Point) {
+    let r0 = k.tf.rad(k.r);
+    let rp = r0 + PERTS[k.pert];
+    let dr = rp - r0; // exact
+    if dr.abs() <= 1.01e-9 * rp {
+        acc.inc(C::NearPosInBand);
+        acc.inc(C::SkippedOutOfDomain);
+        return;
+    }
+    let exact = if dr > 0.0 { PointPosition::Inside } else { PointPosition::Outside };
+    acc.inc(if dr > 0.0 { C::NearPosInside } else { C::NearPosOutside });
+    let circle = Circle::new(*fc, rp);
+    let res = catch(|| circle.position(fp));
+    acc.inc(C::Evals);
+    if res.as_ref().ok() != Some(&exact) {
+        let s = format!("{:?}", res);
+        acc.fail("position_near", key, || {
+            Violation::new(
+                format!("position_near:{}", k.sig()),
+                format!("Circle::position near the border: point {} is exactly on the circle centre {} r={} (transform {}; fed centre {} point {}); with the fed radius changed by {} to {:?} it is {:?}, {:e} of the radius away from the border (library tolerance 1e-9, relative); library returned {s}", ip(k.p), ip(k.c), k.r, k.tf.tag(), ps(fc), ps(fp), pert_tag(k.pert), rp, exact, dr.abs() / rp),
+                k.replay("position_near"),
+            )
+        });
+    }
+}
+
+/// returns whether the point is exactly on the border
+fn check_pos(acc: &mut Acc, key: Key, k: &PosCase, fc: &Point, fp: &Point) -> bool {
     let (dx, dy) = ((k.p.0 - k.c.0) as i128, (k.p.1 - k.c.1) as i128);
     let dd = dx * dx + dy * dy;
     let rr = (k.r as i128) * (k.r as i128);
@@ -857,9 +1140,10 @@ fn check_pos(acc: &mut Acc, key: Key, k: &PosCase, fc: &Point, fp: &Point) {
     if res.as_ref().ok() != Some(&exact) {
         let s = format!("{:?}", res);
         acc.fail("position", key, || {
-            Violation::new(format!("position:{}", k.sig()), format!("Circle::position: centre {} r={} point {} (transform {}): exact d^2={} vs r^2={} so {:?}; library returned {s}", ip(k.c), k.r, ip(k.p), k.tf.tag(), dd, rr, exact), k.replay())
+            Violation::new(format!("position:{}", k.sig()), format!("Circle::position: centre {} r={} point {} (transform {}): exact d^2={} vs r^2={} so {:?}; library returned {s}", ip(k.c), k.r, ip(k.p), k.tf.tag(), dd, rr, exact), k.replay("position"))
         });
     }
+    dd == rr
 }
 
 struct ConCase {
@@ -870,28 +1154,46 @@ struct ConCase {
 }
 
 impl ConCase {
+    fn fam(&self) -> &'static str {
+        if self.tf.is_binary() {
+            "skew_contains"
+        } else {
+            "contains"
+        }
+    }
     fn sig(&self) -> String {
-        format!("tf={};l={}>{};p={}", self.tf.tag(), ip(self.p1), ip(self.p2), ip(self.q))
+        let t = &self.tf;
+        format!("tf={};l={}>{};p={}", t.tag(), t.show(self.p1), t.show(self.p2), t.show(self.q))
     }
     fn replay(&self) -> Value {
-        json!({"case": "contains", "family": "contains", "tf": self.tf.json(), "p1": [self.p1.0, self.p1.1], "p2": [self.p2.0, self.p2.1], "q": [self.q.0, self.q.1]})
+        json!({"case": "contains", "family": self.fam(), "tf": self.tf.json(), "p1": [self.p1.0, self.p1.1], "p2": [self.p2.0, self.p2.1], "q": [self.q.0, self.q.1]})
     }
 }
 
 fn check_contains(acc: &mut Acc, key: Key, k: &ConCase, fl: &Line, fq: &Point) {
+    let skew = k.tf.is_binary();
     let (dx, dy) = ((k.p2.0 - k.p1.0) as i128, (k.p2.1 - k.p1.1) as i128);
     let cross = dx * (k.q.1 - k.p1.1) as i128 - dy * (k.q.0 - k.p1.0) as i128;
     let exact = cross == 0;
     acc.inc(if exact { C::ContainsOn } else { C::ContainsOff });
-    if k.tf.is_id() && !exact {
-        acc.gap_contains = acc.gap_contains.min(cross.abs() as f64 / ((dx * dx + dy * dy) as f64).sqrt());
+    if skew {
+        acc.inc(if exact { C::SkewContainsOn } else { C::SkewContainsOff });
+    }
+    if (k.tf.is_id() || skew) && !exact {
+        // the distance in the fed plane (the skew plane's integers are units of 2^-19)
+        let g = cross.abs() as f64 / ((dx * dx + dy * dy) as f64).sqrt() / k.tf.h as f64;
+        if skew {
+            acc.gap_skew_contains = acc.gap_skew_contains.min(g);
+        } else {
+            acc.gap_contains = acc.gap_contains.min(g);
+        }
     }
     let res = catch(|| fl.contains(fq));
     acc.inc(C::Evals);
     if res.as_ref().ok() != Some(&exact) {
         let s = format!("{:?}", res);
-        acc.fail("contains", key, || {
-            Violation::new(format!("contains:{}", k.sig()), format!("Line::contains: line through {} and {} and point {} (transform {}): exact cross product {cross}, so on the line = {exact}; library returned {s} (line a,b,c = {:?},{:?},{:?})", ip(k.p1), ip(k.p2), ip(k.q), k.tf.tag(), fl.a, fl.b, fl.c), k.replay())
+        acc.fail(k.fam(), key, || {
+            Violation::new(format!("{}:{}", k.fam(), k.sig()), format!("Line::contains: line through {} and {} and point {} (transform {}): exact cross product {cross}, so on the line = {exact}; library returned {s} (line a,b,c = {:?},{:?},{:?})", k.tf.show(k.p1), k.tf.show(k.p2), k.tf.show(k.q), k.tf.tag(), fl.a, fl.b, fl.c), k.replay())
         });
     }
 }
@@ -921,6 +1223,20 @@ fn make_line(a: &Point, b: &Point) -> Result<Line, String> {
     catch(|| Line::between(a, b))
 }
 
+/// `Line::between` on the images of two pre-image points (a panic is a violation; the line is then unusable)
+fn build_line(acc: &mut Acc, tf: &Tf, key: Key, p1: IP, p2: IP) -> Line {
+    acc.inc(C::Evals);
+    match make_line(&tf.pt(p1), &tf.pt(p2)) {
+        Ok(l) => l,
+        Err(e) => {
+            acc.fail("line_between_panic", key, || {
+                Violation::new(format!("line_between_panic:tf={};l={}>{}", tf.tag(), tf.show(p1), tf.show(p2)), format!("Line::between panicked: {e}"), json!({"case": "between", "family": "line_between_panic", "tf": tf.json(), "p1": [p1.0, p1.1], "p2": [p2.0, p2.1]}))
+            });
+            Line { a: f64::NAN, b: f64::NAN, c: f64::NAN }
+        }
+    }
+}
+
 impl World {
     fn new(tf: Tf, tfi: u64, n: i64, rmax: i64, acc: &mut Acc) -> World {
         let pts = lattice(n);
@@ -931,17 +1247,7 @@ impl World {
             for j in 0..pts.len() {
                 if i != j {
                     lines.push((i as u32, j as u32));
-                    match make_line(&fpts[i], &fpts[j]) {
-                        Ok(l) => flines.push(l),
-                        Err(e) => {
-                            let (p1, p2) = (pts[i], pts[j]);
-                            acc.fail("line_between_panic", (tfi, i as u64, j as u64), || {
-                                Violation::new(format!("line_between_panic:tf={};l={}>{}", tf.tag(), ip(p1), ip(p2)), format!("Line::between panicked: {e}"), json!({"case": "between", "family": "line_between_panic", "tf": tf.json(), "p1": [p1.0, p1.1], "p2": [p2.0, p2.1]}))
-                            });
-                            flines.push(Line { a: f64::NAN, b: f64::NAN, c: f64::NAN });
-                        }
-                    }
-                    acc.inc(C::Evals);
+                    flines.push(build_line(acc, &tf, (tfi, i as u64, j as u64), pts[i], pts[j]));
                 }
             }
         }
@@ -956,8 +1262,14 @@ impl World {
                 let mut acc = Acc::new();
                 let (pi, r) = (ci / self.rmax as usize, (ci % self.rmax as usize) as i64 + 1);
                 for (li, &(i, j)) in self.lines.iter().enumerate() {
-                    let k = ClCase { tf: self.tf, c: self.pts[pi], r, p1: self.pts[i as usize], p2: self.pts[j as usize] };
-                    check_cl(&mut acc, (self.tfi, ci as u64, li as u64), &k, &self.fpts[pi], &self.fpts[i as usize], &self.fpts[j as usize], &self.flines[li]);
+                    let mut k = ClCase { tf: self.tf, c: self.pts[pi], r, p1: self.pts[i as usize], p2: self.pts[j as usize], pert: 0 };
+                    let exact = check_cl(&mut acc, (self.tfi, ci as u64, li as u64), &k, &self.fpts[pi], &self.fpts[i as usize], &self.fpts[j as usize], &self.flines[li]);
+                    if exact == ClKind::Touch {
+                        for pert in 1..PERTS.len() {
+                            k.pert = pert;
+                            check_cl_near(&mut acc, (self.tfi, ci as u64, (li * PERTS.len() + pert) as u64), &k, &self.fpts[pi], &self.fpts[i as usize], &self.fpts[j as usize], &self.flines[li]);
+                        }
+                    }
                 }
                 acc
             })
@@ -973,8 +1285,14 @@ impl World {
                 let (pa, ra) = (ai / self.rmax as usize, (ai % self.rmax as usize) as i64 + 1);
                 for bi in 0..nc {
                     let (pb, rb) = (bi / self.rmax as usize, (bi % self.rmax as usize) as i64 + 1);
-                    let k = CcCase { tf: self.tf, a: self.pts[pa], ra, b: self.pts[pb], rb };
-                    check_cc(&mut acc, (self.tfi, ai as u64, bi as u64), &k, &self.fpts[pa], &self.fpts[pb]);
+                    let mut k = CcCase { tf: self.tf, a: self.pts[pa], ra, b: self.pts[pb], rb, pert: 0 };
+                    let exact = check_cc(&mut acc, (self.tfi, ai as u64, bi as u64), &k, &self.fpts[pa], &self.fpts[pb]);
+                    if exact == CcKind::TouchInside || exact == CcKind::TouchOutside {
+                        for pert in 1..PERTS.len() {
+                            k.pert = pert;
+                            check_cc_near(&mut acc, (self.tfi, ai as u64, (bi * PERTS.len() + pert) as u64), &k, &self.fpts[pa], &self.fpts[pb]);
+                        }
+                    }
                 }
                 acc
             })
@@ -1008,8 +1326,13 @@ impl World {
                 let mut acc = Acc::new();
                 let (pi, r) = (ci / self.rmax as usize, (ci % self.rmax as usize) as i64 + 1);
                 for qi in 0..self.pts.len() {
-                    let k = PosCase { tf: self.tf, c: self.pts[pi], r, p: self.pts[qi] };
-                    check_pos(&mut acc, (self.tfi, ci as u64, qi as u64), &k, &self.fpts[pi], &self.fpts[qi]);
+                    let mut k = PosCase { tf: self.tf, c: self.pts[pi], r, p: self.pts[qi], pert: 0 };
+                    if check_pos(&mut acc, (self.tfi, ci as u64, qi as u64), &k, &self.fpts[pi], &self.fpts[qi]) {
+                        for pert in 1..PERTS.len() {
+                            k.pert = pert;
+                            check_pos_near(&mut acc, (self.tfi, ci as u64, (qi * PERTS.len() + pert) as u64), &k, &self.fpts[pi], &self.fpts[qi]);
+                        }
+                    }
                 }
                 acc
             })
@@ -1033,6 +1356,93 @@ impl World {
 }
 
 // ------------------------------------------------------------------------------------------------
+// the skew plane: nearly axis-parallel lines with well-separated defining points
+// ------------------------------------------------------------------------------------------------
+
+/// Integer coordinates in units of 2^-19.  Ordinary lines: through all ordered pairs of distinct points of
+/// the lattice [-n,n]^2 scaled by `scale`.  Skew lines: for every i in -n..=n the vertical line of the box
+/// through (i,-n) and (i,n) and the horizontal one through (-n,i) and (n,i), with the SECOND point moved
+/// sideways by +-2^-e for each exponent e, taken in both orientations.
+struct SkewPlane {
+    tfi: u64,
+    pts: Vec<IP>,
+    lines: Vec<(IP, IP)>,
+    flines: Vec<Line>,
+    /// (first defining point, second defining point, the un-nudged lattice endpoint)
+    skew: Vec<(IP, IP, IP)>,
+    fskew: Vec<Line>,
+}
+
+impl SkewPlane {
+    fn new(tfi: u64, n: i64, scale: i64, exps: &[u32], acc: &mut Acc) -> SkewPlane {
+        let tf = Tf::BINARY;
+        let unit = scale * BIN;
+        let pts: Vec<IP> = lattice(n).iter().map(|&(x, y)| (x * unit, y * unit)).collect();
+        let mut lines = vec![];
+        let mut flines = vec![];
+        for i in 0..pts.len() {
+            for j in 0..pts.len() {
+                if i != j {
+                    lines.push((pts[i], pts[j]));
+                    flines.push(build_line(acc, &tf, (tfi, i as u64, j as u64), pts[i], pts[j]));
+                }
+            }
+        }
+        // mildest first: large nudge, central line, vertical, nudged to the positive side, forward orientation
+        let mut order: Vec<i64> = (-n..=n).collect();
+        order.sort_by_key(|i| (i.abs(), *i < 0));
+        let mut skew = vec![];
+        for &e in exps {
+            let eps = BIN >> e;
+            assert!(eps >= 1, "nudge 2^-{e} is not representable in units of 2^-19");
+            for &i in &order {
+                for vertical in [true, false] {
+                    for sign in [1, -1] {
+                        let (a, b, b0) = if vertical { ((i * unit, -n * unit), (i * unit + sign * eps, n * unit), (i * unit, n * unit)) } else { ((-n * unit, i * unit), (n * unit, i * unit + sign * eps), (n * unit, i * unit)) };
+                        skew.push((a, b, b0));
+                        skew.push((b, a, b0));
+                    }
+                }
+            }
+        }
+        let fskew = skew.iter().enumerate().map(|(si, &(a, b, _))| build_line(acc, &tf, (tfi, u64::MAX, si as u64), a, b)).collect();
+        SkewPlane { tfi, pts, lines, flines, skew, fskew }
+    }
+
+    /// every skew line x every ordinary line (both argument orders), x every skew line, contains() of every
+    /// lattice point, of its own defining points and of the un-nudged endpoint
+    fn run(&self) -> Acc {
+        let tf = Tf::BINARY;
+        (0..self.skew.len())
+            .into_par_iter()
+            .map(|si| {
+                let mut acc = Acc::new();
+                let (s1, s2, s0) = self.skew[si];
+                let (f1, f2) = (tf.pt(s1), tf.pt(s2));
+                let ls = &self.fskew[si];
+                let nl = self.lines.len();
+                for (li, &(q1, q2)) in self.lines.iter().enumerate() {
+                    let (g1, g2) = (tf.pt(q1), tf.pt(q2));
+                    let k = LlCase { tf, p1: s1, p2: s2, q1, q2 };
+                    check_ll(&mut acc, (self.tfi, si as u64, 2 * li as u64), &k, &f1, &f2, &g1, &g2, ls, &self.flines[li]);
+                    let k = LlCase { tf, p1: q1, p2: q2, q1: s1, q2: s2 };
+                    check_ll(&mut acc, (self.tfi, si as u64, 2 * li as u64 + 1), &k, &g1, &g2, &f1, &f2, &self.flines[li], ls);
+                }
+                for (sj, &(t1, t2, _)) in self.skew.iter().enumerate() {
+                    let k = LlCase { tf, p1: s1, p2: s2, q1: t1, q2: t2 };
+                    check_ll(&mut acc, (self.tfi, si as u64, (2 * nl + sj) as u64), &k, &f1, &f2, &tf.pt(t1), &tf.pt(t2), ls, &self.fskew[sj]);
+                }
+                for (qi, &q) in self.pts.iter().chain([s1, s2, s0].iter()).enumerate() {
+                    let k = ConCase { tf, p1: s1, p2: s2, q };
+                    check_contains(&mut acc, (self.tfi, si as u64, qi as u64), &k, ls, &tf.pt(q));
+                }
+                acc
+            })
+            .reduce(Acc::new, Acc::merge)
+    }
+}
+
+// ------------------------------------------------------------------------------------------------
 // plain re-execution of one recorded case
 // ------------------------------------------------------------------------------------------------
 
@@ -1040,18 +1450,31 @@ fn confirm(v: &Value) -> Result<(), String> {
     let tf = Tf::from_json(&v["tf"]);
     let g = |name: &str| -> IP { (v[name][0].as_i64().unwrap(), v[name][1].as_i64().unwrap()) };
     let fam = v["family"].as_str().unwrap_or("").to_string();
+    // replay files of the near-boundary family name the radius change; anything else is the plain case
+    let pert = v["pert"].as_u64().unwrap_or(0) as usize;
+    if pert >= PERTS.len() {
+        return Err(format!("replay file names an unknown radius change #{pert}"));
+    }
     let mut acc = Acc::new();
     let key = (0, 0, 0);
     match v["case"].as_str().unwrap_or("") {
         "cl" => {
-            let k = ClCase { tf, c: g("c"), r: v["r"].as_i64().unwrap(), p1: g("p1"), p2: g("p2") };
+            let k = ClCase { tf, c: g("c"), r: v["r"].as_i64().unwrap(), p1: g("p1"), p2: g("p2"), pert };
             let (fc, fp1, fp2) = (tf.pt(k.c), tf.pt(k.p1), tf.pt(k.p2));
             let fl = make_line(&fp1, &fp2).map_err(|e| format!("Line::between panicked: {e}"))?;
-            check_cl(&mut acc, key, &k, &fc, &fp1, &fp2, &fl);
+            if pert == 0 {
+                check_cl(&mut acc, key, &k, &fc, &fp1, &fp2, &fl);
+            } else {
+                check_cl_near(&mut acc, key, &k, &fc, &fp1, &fp2, &fl);
+            }
         }
         "cc" => {
-            let k = CcCase { tf, a: g("a"), ra: v["ra"].as_i64().unwrap(), b: g("b"), rb: v["rb"].as_i64().unwrap() };
-            check_cc(&mut acc, key, &k, &tf.pt(k.a), &tf.pt(k.b));
+            let k = CcCase { tf, a: g("a"), ra: v["ra"].as_i64().unwrap(), b: g("b"), rb: v["rb"].as_i64().unwrap(), pert };
+            if pert == 0 {
+                check_cc(&mut acc, key, &k, &tf.pt(k.a), &tf.pt(k.b));
+            } else {
+                check_cc_near(&mut acc, key, &k, &tf.pt(k.a), &tf.pt(k.b));
+            }
         }
         "ll" => {
             let k = LlCase { tf, p1: g("p1"), p2: g("p2"), q1: g("q1"), q2: g("q2") };
@@ -1061,8 +1484,12 @@ fn confirm(v: &Value) -> Result<(), String> {
             check_ll(&mut acc, key, &k, &a, &b, &c, &d, &lu, &lv);
         }
         "pos" => {
-            let k = PosCase { tf, c: g("c"), r: v["r"].as_i64().unwrap(), p: g("p") };
-            check_pos(&mut acc, key, &k, &tf.pt(k.c), &tf.pt(k.p));
+            let k = PosCase { tf, c: g("c"), r: v["r"].as_i64().unwrap(), p: g("p"), pert };
+            if pert == 0 {
+                check_pos(&mut acc, key, &k, &tf.pt(k.c), &tf.pt(k.p));
+            } else {
+                check_pos_near(&mut acc, key, &k, &tf.pt(k.c), &tf.pt(k.p));
+            }
         }
         "contains" => {
             let k = ConCase { tf, p1: g("p1"), p2: g("p2"), q: g("q") };
@@ -1107,6 +1534,11 @@ fn main() {
     let ll_stride1: usize = args.tier.pick(1, 1);
     let ll_stride2: usize = args.tier.pick(5, 7);
 
+    // skew plane: lattice [-ns,ns]^2 scaled by 100 (defining points of a skew line 800 apart), nudges 2^-e
+    let ns: i64 = 4;
+    let skew_scale: i64 = 100;
+    let skew_exps: Vec<u32> = args.tier.pick(vec![7, 13, 19], vec![7, 10, 13, 16, 19]);
+
     let mut tfs: Vec<(Tf, i64, i64, usize)> = vec![(Tf::ID, n1, r1, ll_stride1)];
     let mut scale_notes = vec![];
     for &(p, q, h) in &rotations {
@@ -1138,6 +1570,17 @@ fn main() {
                             "exact_cc_touch_outside": acc.get(C::CcTouchOutside), "seconds": ((run.elapsed() - t0) * 100.0).round() / 100.0}));
         total = total.merge(acc);
     }
+    let skew_info = {
+        let mut acc = Acc::new();
+        let t0 = run.elapsed();
+        let sp = SkewPlane::new(tfs.len() as u64, ns, skew_scale, &skew_exps, &mut acc);
+        let acc = acc.merge(sp.run());
+        let info = json!({"unit": "2^-19", "lattice_half_width": ns, "lattice_scale": skew_scale, "defining_points_apart": 2 * ns * skew_scale, "nudges": skew_exps.iter().map(|e| format!("2^-{e}")).collect::<Vec<_>>(),
+                          "skew_lines": sp.skew.len(), "ordinary_lines": sp.lines.len(), "sub_sampling": "none: every skew line x every ordinary line in both argument orders, x every skew line",
+                          "evaluations": acc.get(C::Evals), "seconds": ((run.elapsed() - t0) * 100.0).round() / 100.0});
+        total = total.merge(acc);
+        info
+    };
 
     // ---- evidence -----------------------------------------------------------------------------
     for (i, name) in CNAMES.iter().enumerate() {
@@ -1146,11 +1589,17 @@ fn main() {
     run.cov("exhaustive", true);
     run.cov(
         "rule",
-        "lattice 1: all integer centres in [-N,N]^2 x radii 1..=R, lines through all ordered pairs of distinct lattice points; circle-line = every circle x every line, circle-circle = every ordered pair of circles (both argument orders called), line-line + parallel = every ordered pair of lines, position = every circle x every lattice point, contains = every line x every lattice point. lattice 2: the same enumeration on [-N2,N2]^2 fed through rotation (3/5,4/5),(5/13,12/13),(8/17,15/17), shift by quarters, integer scale (second line of line-line cases restricted to every ll_second_line_stride-th ordered pair). Classes decided exactly in i128 on the pre-image integers. distinct_nontrivial = enumerated configurations (each a distinct input) whose exact class is a contact: circle-line Touch/Intersect, circle-circle Same/TouchInside/TouchOutside/Intersect, non-parallel line pairs",
+        "lattice 1: all integer centres in [-N,N]^2 x radii 1..=R, lines through all ordered pairs of distinct lattice points; circle-line = every circle x every line, circle-circle = every ordered pair of circles (both argument orders called), line-line + parallel = every ordered pair of lines, position = every circle x every lattice point, contains = every line x every lattice point. lattice 2: the same enumeration on [-N2,N2]^2 fed through rotation (3/5,4/5),(5/13,12/13),(8/17,15/17), shift by quarters, integer scale (second line of line-line cases restricted to every ll_second_line_stride-th ordered pair). Classes decided exactly in i128 on the pre-image integers. near-boundary family: EVERY exactly tangent circle-line configuration, EVERY exactly tangent ordered circle pair (inside and outside) and EVERY exact border point met by the above, in every lattice image (radii up to ~480), is fed again with one fed radius changed by each of +-1e-8, +-3e-7, +-1e-5; the sign of the change decides the class (secant/miss, crossing/separated/nested, inside/outside), the configuration is |change| away from the boundary; demanded: the kind, every returned point on both primitives within 1e-7, two returned points distinct. skew plane: coordinates in units of 2^-19; every axis-parallel line spanning the scaled lattice box with its second defining point nudged sideways by +-2^-e, both orientations, against every ordinary lattice line in both argument orders and against every skew line (parallel / crossing decided in i128; returned point on both lines within 1e-7 when the exact point is within 1e3), and contains() of all lattice points, the defining points and the un-nudged endpoint. distinct_nontrivial = enumerated configurations (each a distinct input) whose exact class is a contact: circle-line Touch/Intersect, circle-circle Same/TouchInside/TouchOutside/Intersect, non-parallel line pairs, near-boundary secants and crossing circle pairs",
     );
     run.cov("lattice1", json!({"half_width": n1, "max_radius": r1}));
     run.cov("lattice2", json!({"half_width": n2, "max_radius": r2, "rotations": ["3/5,4/5", "5/13,12/13", "8/17,15/17"], "shifts_in_quarters": shifts, "scales": scale_notes}));
     run.cov("per_transform", per_tf);
+    run.cov("near_boundary_radius_changes", PERTS[1..].to_vec());
+    run.cov("skew_plane", skew_info);
+    run.cov(
+        "skew_plane_min_nonzero_boundary_gap",
+        json!({"parallel_sine": total.gap_skew_parallel, "contains_abs": total.gap_skew_contains, "note": "exact, from the integer coordinates; library EPS = 1e-9, required > 2e-9"}),
+    );
     run.cov("point_tolerance", TOL);
     run.cov("max_accepted_deviation_from_exact_points", total.max_dev);
     let gaps = [("circle_line_abs", total.gap_cl), ("circle_circle_abs", total.gap_cc), ("position_relative", total.gap_pos_rel), ("contains_abs", total.gap_contains), ("parallel_sine", total.gap_parallel)];
@@ -1163,6 +1612,8 @@ fn main() {
     let fc: BTreeMap<String, u64> = total.fail_counts.iter().map(|(k, v)| (k.to_string(), *v)).collect();
     run.cov("failing_cases_per_family", json!(fc));
     run.assume("tangent / identical / border configurations of lattice 2 are fed as f64 images that differ from the exact configuration by rounding (~1e-13 at magnitude 1e3), far inside the library's own 1e-9 tolerance, so the exact class is still demanded");
+    run.assume("near-boundary family: the tangent configuration is fed with rounding of ~1e-13 (lattice 1: none), so after a radius change of magnitude >= 1e-8 the fed configuration is that far (+-1e-12) from the boundary and on the side given by the sign of the change; the property excludes only configurations within 1e-9 (position: within 1e-9 of the radius, relatively - such changes are skipped and counted)");
+    run.assume("near-boundary and skew families demand what the property states of a returned point (on both primitives within 1e-7) and not its position along two almost coincident directions, which the data do not determine to 1e-7");
     run.assume("the 1e-7 accuracy clause is applied only where all coordinates involved are <= 1e3 (line-line intersection points beyond that are counted in skipped_out_of_domain; their kind is still checked)");
 
     // samples: a fixed set of categories; VERIF_SEED only rotates their order
@@ -1181,7 +1632,28 @@ fn main() {
             run.machinery_failure(&format!("boundary gap {name} = {g:?} is not > 1e-6: the lattice contains configurations inside the excluded tolerance band"));
         }
     }
+    for (name, g) in [("skew parallel_sine", total.gap_skew_parallel), ("skew contains_abs", total.gap_skew_contains)] {
+        if !(g > NEAR_FLOOR) || !g.is_finite() {
+            run.machinery_failure(&format!("boundary gap {name} = {g:?} is not > 2e-9: the skew plane contains configurations inside the excluded tolerance band"));
+        }
+    }
+    if !PERTS[1..].iter().all(|d| d.abs() > NEAR_FLOOR) {
+        run.machinery_failure("a near-boundary radius change is inside the excluded tolerance band");
+    }
     let need = [
+        (C::NearClIntersect, "near-tangent secants"),
+        (C::NearClNone, "near-tangent missing lines"),
+        (C::NearCcIntersect, "near-tangent crossing circles"),
+        (C::NearCcNoneOutside, "near-tangent separated circles"),
+        (C::NearCcNoneInside, "near-tangent nested circles"),
+        (C::NearPosInside, "points just inside a circle"),
+        (C::NearPosOutside, "points just outside a circle"),
+        (C::NearLargeRadiusInRelBand, "near-tangent cases whose distance from tangency is below radius * 1e-9"),
+        (C::SkewLlParallel, "parallel pairs in the skew plane"),
+        (C::SkewLlPointChecked, "skew-plane crossings within 1e3"),
+        (C::SkewLlSteepFirst, "skew-plane crossings whose first line has a minor coefficient below 1e-6"),
+        (C::SkewContainsOn, "points on skew lines"),
+        (C::SkewContainsOff, "points off skew lines"),
         (C::ClTouchNonAxis, "non-axis-aligned circle-line tangencies"),
         (C::CcTouchInsideNonAxis, "non-axis-aligned inside circle-circle tangencies"),
         (C::CcTouchOutsideNonAxis, "non-axis-aligned outside circle-circle tangencies"),
